@@ -182,20 +182,37 @@ def ask : Dflt → List Ans → Decision × Dflt × List Ans
     | .empty => (if d == .n then .skip else .remove, d, as)
     | .other => ask d as
 
-/-- the destruction loop with `interactive=True`: every product (each once) is asked about first; `n` leaves it alone,
-`q` ends the command — the products removed so far stay removed —; third component: the products actually removed -/
-def destroyLoopI (force : Bool) : State → List Prod → Dflt → List Ans → Outcome × State × List Prod
+/-- the destruction loop with `interactive=True`: every product (each once) is asked about first; `n` leaves it alone —
+and ends the command when it is the requested product `top` itself (repair of D74: the others were collected, and
+excused by the in-use check, because the requested product was to go) —, `q` ends the command — the products removed so
+far stay removed —; third component: the products actually removed -/
+def destroyLoopI (force : Bool) (top : Prod) : State → List Prod → Dflt → List Ans → Outcome × State × List Prod
   | s, [], _, _ => (.ok, s, [])
   | s, p :: ps, d, as =>
     match ask d as with
     | (.eof, _, _) => (.failed .eof, s, [])
     | (.quit, _, _) => (.ok, s, [])
-    | (.skip, d', as') => destroyLoopI force s ps d' as'
+    | (.skip, d', as') => if p == top then (.ok, s, []) else destroyLoopI force top s ps d' as'
     | (.remove, d', as') =>
       if !s.dbWritable then (.failed .noPermission, s, [])
       else if s.isSetup p && !force then (.failed .isSetup, s, [])
       else
-        let r := destroyLoopI force (destroy s [p]) ps d' as'
+        let r := destroyLoopI force top (destroy s [p]) ps d' as'
+        (r.1, r.2.1, p :: r.2.2)
+
+/-- pinned (before the repair of D74): `n` for the requested product only skipped it -/
+def destroyLoopIPinned (force : Bool) : State → List Prod → Dflt → List Ans → Outcome × State × List Prod
+  | s, [], _, _ => (.ok, s, [])
+  | s, p :: ps, d, as =>
+    match ask d as with
+    | (.eof, _, _) => (.failed .eof, s, [])
+    | (.quit, _, _) => (.ok, s, [])
+    | (.skip, d', as') => destroyLoopIPinned force s ps d' as'
+    | (.remove, d', as') =>
+      if !s.dbWritable then (.failed .noPermission, s, [])
+      else if s.isSetup p && !force then (.failed .isSetup, s, [])
+      else
+        let r := destroyLoopIPinned force (destroy s [p]) ps d' as'
         (r.1, r.2.1, p :: r.2.2)
 
 /-- `Eups.remove(..., interactive=True)`: collection, in-use check and the set-up pre-check as without `-i`; then the
@@ -207,7 +224,23 @@ def removeWithI (s : State) (uses : UsesOutcome) (name ver : Str) (recursive che
     | .error e => (.failed e, s, [])
     | .ok (l, _) =>
       if !force && (uniqProds l).any s.isSetup then (.failed .isSetup, s, [])
-      else destroyLoopI force s (uniqProds l) .y answers
+      else destroyLoopI force ⟨name, some ver, true⟩ s (uniqProds l) .y answers
+  if check then
+    match uses with
+    | .outOfFuel => (.failed .outOfFuel, s, [])
+    | .cycle => (.failed .cycle, s, [])
+    | .ok sb => go (some sb)
+  else go none
+
+/-- pinned `Eups.remove(..., interactive=True)` (before the repair of D74) -/
+def removeWithIPinned (s : State) (uses : UsesOutcome) (name ver : Str) (recursive check force : Bool)
+    (defaultName : Option Str) (answers : List Ans) : Outcome × State × List Prod :=
+  let go (sb : Option SetupBy) : Outcome × State × List Prod :=
+    match collect s.db sb force defaultName (name, ver) s.removeFuel name (some ver) recursive [] with
+    | .error e => (.failed e, s, [])
+    | .ok (l, _) =>
+      if !force && (uniqProds l).any s.isSetup then (.failed .isSetup, s, [])
+      else destroyLoopIPinned force s (uniqProds l) .y answers
   if check then
     match uses with
     | .outOfFuel => (.failed .outOfFuel, s, [])
